@@ -24,9 +24,43 @@ func floorSec(ns int64) int64 {
 	return q * sec
 }
 
+// another secret than k: mostly one that agrees with k on the first 64 bytes
+func otherSecret(r *kit.Rng, k int) int {
+	for {
+		o := r.Intn(nValidSecrets)
+		if o == k {
+			continue
+		}
+		if family(o) == family(k) || r.Chance(1, 4) {
+			return o
+		}
+	}
+}
+
+func pickSecret(r *kit.Rng) int {
+	if r.Chance(1, 2) {
+		return 0
+	}
+	return r.Intn(nValidSecrets)
+}
+
+func genKeys(r *kit.Rng) *keysSpec {
+	ks := &keysSpec{A: r.Intn(nSecrets), DataHex: kit.Pick(r, []string{"", "00", "68656c6c6f", "ff00ff00ff00ff00ff00ff00ff00ff00ff00ff00ff00ff00ff00ff00ff00ff00ff"})}
+	switch r.Intn(4) {
+	case 0:
+		ks.B = ks.A
+	case 1:
+		ks.B = r.Intn(nSecrets)
+	default:
+		ks.A = r.Intn(nValidSecrets)
+		ks.B = otherSecret(r, ks.A)
+	}
+	return ks
+}
+
 func genIssue(r *kit.Rng) *issueSpec {
 	return &issueSpec{
-		Key:   0,
+		Key:   pickSecret(r),
 		App:   kit.Pick(r, apps),
 		PType: kit.Pick(r, payloadTypes),
 		PVar:  r.Intn(5),
@@ -50,8 +84,8 @@ func genVal(r *kit.Rng, is *issueSpec, clockBoundary bool) valSpec {
 		}
 	}
 	switch r.Intn(10) {
-	case 0:
-		v.Key = 1 - is.Key
+	case 0, 3:
+		v.Key = otherSecret(r, is.Key)
 	case 1:
 		v.App = kit.Pick(r, apps)
 	case 2:
@@ -92,7 +126,7 @@ func genMut(r *kit.Rng, tok string) *mutSpec {
 	case 8:
 		return &mutSpec{Op: kit.Pick(r, []string{"dropsig", "dropdot", "appendseg", "pad", "hdrnewline"})}
 	case 9, 10:
-		return &mutSpec{Op: "resign", Arg: r.Intn(2)}
+		return &mutSpec{Op: "resign", Arg: r.Intn(nValidSecrets)}
 	case 11, 12:
 		return &mutSpec{Op: "sigtrailbits", Arg: r.Intn(3)}
 	case 13:
@@ -215,12 +249,12 @@ func goodClaims(c *forgeCtx, pvar int, durNs int64) map[string]any {
 }
 
 func genForge(r *kit.Rng) (*forgeSpec, valSpec) {
-	v := valSpec{Key: r.Intn(2), App: kit.Pick(r, apps), PType: kit.Pick(r, payloadTypes), Now: kit.Pick(r, []int64{0, 999999999, 5 * sec, 5*sec + 1})}
+	v := valSpec{Key: pickSecret(r), App: kit.Pick(r, apps), PType: kit.Pick(r, payloadTypes), Now: kit.Pick(r, []int64{0, 999999999, 5 * sec, 5*sec + 1})}
 	if r.Chance(1, 2) {
 		v.PType = "principal"
 	}
 	ctx := &forgeCtx{ptype: v.PType, app: v.App, now: v.Now}
-	f := &forgeSpec{Header: headers[0], Sign: kit.Pick(r, []string{"k0", "k1", "empty", "garbage"})}
+	f := &forgeSpec{Header: headers[0], Sign: kit.Pick(r, []string{fmt.Sprintf("k%d", otherSecret(r, v.Key)), fmt.Sprintf("k%d", otherSecret(r, v.Key)), "empty", "garbage"})}
 	if r.Chance(3, 5) {
 		f.Sign = fmt.Sprintf("k%d", v.Key)
 	}
@@ -258,7 +292,7 @@ var rawStrings = []string{
 }
 
 func genRaw(r *kit.Rng) (string, valSpec) {
-	v := valSpec{Key: r.Intn(2), App: kit.Pick(r, apps), PType: kit.Pick(r, payloadTypes), Now: 0}
+	v := valSpec{Key: pickSecret(r), App: kit.Pick(r, apps), PType: kit.Pick(r, payloadTypes), Now: 0}
 	if r.Chance(1, 2) {
 		v.PType = "principal"
 	}
@@ -298,7 +332,10 @@ func genCase(r *kit.Rng, i int) (*caseSpec, error) {
 	case 6, 7, 8: // well-formed JWTs built here: arbitrary header / claims / signature
 		f, v := genForge(r)
 		return &caseSpec{Forge: f, Val: v}, nil
-	default: // malformed stream
+	default: // malformed stream, and (every other time) two secrets side by side
+		if i%20 == 19 {
+			return &caseSpec{Keys: genKeys(r)}, nil
+		}
 		s, v := genRaw(r)
 		h := hex.EncodeToString([]byte(s))
 		return &caseSpec{RawHex: &h, Val: v}, nil
